@@ -14,6 +14,7 @@ structure ParentRes where
   /-- `none` = no selector in the rule = `Everything()` -/
   labelSel : Option Selector
   annSel : Option Selector
+  ignoreStatusChanges : Bool := false
   deriving Inhabited
 
 def ParentRes.group (p : ParentRes) : String := apiGroup p.apiVersion
